@@ -183,6 +183,25 @@ def history(draw):
             ex = [f for f in fields]
             rows = draw(tbl.rows_for(ex, 1, 3, null_p=False))
             steps.append({"op": "file", "fresh": fresh, "variant": fv, "rows": rows, "klass": []})
+    if draw(st.integers(0, 11)) == 0 and not schemaless:
+        # state carried by a long-lived handle: an accepted sparse batch (optional column omitted / NULL), then an unrepresentable value in it
+        opt = [f for f in fields if not f.get("required") and WRONG.get(f["type"])]
+        if opt:
+            fx = draw(st.sampled_from(opt))
+            def exact_row(skip=None, nul=None):
+                r = {}
+                for f in fields:
+                    if f["name"] == skip:
+                        continue
+                    r[f["name"]] = None if f["name"] == nul else draw(tbl.value_strategy(f["type"]))
+                return r
+            mode = draw(st.sampled_from(["missing", "null"]))
+            sparse = [exact_row(skip=fx["name"]) if mode == "missing" else exact_row(nul=fx["name"]) for _ in range(draw(st.integers(1, 2)))]
+            bad = exact_row()
+            bad[fx["name"]] = draw(st.sampled_from(WRONG[fx["type"]]))
+            pre = [{"op": "records", "fresh": draw(st.booleans()), "variant": "omitted", "rows": [exact_row()], "klass": []}] if draw(st.booleans()) else []
+            steps = pre + [{"op": "records", "fresh": False, "variant": "omitted", "rows": sparse, "klass": ["missing-key"]},
+                           {"op": "records", "fresh": False, "variant": draw(st.sampled_from(["omitted", "identical"])), "rows": [bad], "klass": ["wrong-value", "after-sparse"]}]
     return {"kind": "history", "schemaless": schemaless, "fields": fields, "steps": steps}
 
 
